@@ -479,7 +479,7 @@ def check_case(case, rec=None):
     return None
 
 
-N = {"quick": 1500, "thorough": 50000}
+N = {"quick": 3000, "thorough": 50000}
 
 
 def shard_plan(tier):
